@@ -11,7 +11,7 @@ pub fn c04_q_initial() {
     let calls = Cell::new(0);
     let h = any_mode();
     let kb = Keyboard::new(ScancodeSet2::new(), Spy { tag: false, calls: &calls }, h);
-    println!("C04 initial mode={:?} mods={:?}", h, kb.get_modifiers());
+    crate::show!("C04 initial mode={:?} mods={:?}", h, kb.get_modifiers());
     assert!(*kb.get_modifiers() == spec_initial(), "C04: initial modifier state");
     let kb1 = Keyboard::new(ScancodeSet1::new(), Spy { tag: false, calls: &calls }, h);
     assert!(*kb1.get_modifiers() == spec_initial(), "C04: initial modifier state (Set 1 keyboard)");
@@ -34,7 +34,7 @@ pub fn c04_q_step() {
     let before = kb.verif_stages().2.clone();
     let _ = kb.process_keyevent(KeyEvent::new(k, s));
     let want = spec_next(&m, k, s);
-    println!("C04 step mods={:?} mode={:?} key={:?} state={:?} after={:?} want={:?}", m, h, k, s, kb.get_modifiers(), want);
+    crate::show!("C04 step mods={:?} mode={:?} key={:?} state={:?} after={:?} want={:?}", m, h, k, s, kb.get_modifiers(), want);
     assert!(*kb.get_modifiers() == want, "C04: modifier record after an event differs from the event history");
     if want == m {
         assert!(*kb.verif_stages().2 == before, "C04: an event that changes no modifier changed the decoder");
@@ -57,7 +57,7 @@ pub fn c04_q_step_eventdecoder() {
     let want = spec_next(&m, k, s);
     // probe: a non-modifier press reveals the live modifier record
     let probe = d.process_keyevent(KeyEvent::new(KeyCode::F1, KeyState::Down));
-    println!("C04 evdec mods={:?} key={:?} state={:?} probe={:?}", m, k, s, probe);
+    crate::show!("C04 evdec mods={:?} key={:?} state={:?} probe={:?}", m, k, s, probe);
     assert!(probe == Some(enc(true, KeyCode::F1, &want, h)), "C04: modifiers handed to the layout differ from the event history");
     kani::cover!(want != m);
 }
@@ -124,7 +124,7 @@ pub fn c04_t_three_events() {
         ralt: held(KeyCode::RAltGr),
         rctrl2: held(KeyCode::RControl2),
     };
-    println!("C04 3 events {:?} {:?} -> {:?} want {:?}", ks, ss, kb.get_modifiers(), want);
+    crate::show!("C04 3 events {:?} {:?} -> {:?} want {:?}", ks, ss, kb.get_modifiers(), want);
     assert!(*kb.get_modifiers() == want, "C04: modifier record after three events differs from the event history");
     kani::cover!(!num && pausectl);
 }
